@@ -20,7 +20,7 @@ variable), C09.F-order (Adf::from_parser and adfbiodivine::Adf::from_parser stor
 index into the slot given by the formula_order() item; formula_order maps each acceptance-condition name through the
 dictionary at construction time), C01.A-hybrid (which diagrams the hybrid steps hand to the bridge), and the kernel-build suite of
 rules/deps.py (C07.T-conn, C07.T-ite0, C07.R-ite, S.F-memo ite_cache, S.R-node, S.R-new, S.W-store, C06.W-ctor): the native compilation
-is a fold of these operations."""
+is a fold of these operations.  For the pre-grounded import: the biodivine part of the grounded obligations (S.F-full var_list, C01.P-progress, C01.F-io bio.*)."""
 NOT_DECIDED = "biodivine's own compilation (eval_expression) is trusted; 'formulas of any size' follows by structural induction over Formula from the per-variant step (paper)."
 TECHNIQUE = "static analysis: writer/reader table agreement (dependency source pinned by Cargo.lock vs MIR summary of the reader), per-variant MIR summaries, index provenance"
 
